@@ -365,3 +365,5 @@ func isNilIdent(info *types.Info, e ast.Expr) bool {
 
 // enclosing finds the innermost node of type T on the path from the file root to pos.
 func posIn(n ast.Node, pos token.Pos) bool { return n != nil && n.Pos() <= pos && pos < n.End() }
+
+type packagesPackage = packages.Package
